@@ -117,7 +117,8 @@ theorem decision_D {E B : Int} {r : Req} {tv : Option Int} (h : ReqD E B r tv)
     d.outcome.remaining = max (Int.tdiv (r.now + τ - (if d.allowed then tat + p else tat)) E) 0 ∧
     d.outcome.resetNs = max ((if d.allowed then tat + p else tat) - r.now + max τ E) 0 ∧
     (d.allowed = true → d.outcome.retryNs = 0) ∧
-    (d.allowed = false → p ≤ TWO61 → d.outcome.retryNs = tat + p - τ - r.now) := by
+    (d.allowed = false → p ≤ TWO61 → d.outcome.retryNs = tat + p - τ - r.now) ∧
+    (d.allowed = false → 0 < d.outcome.retryNs) := by
   obtain ⟨hD, hb, hq, hn0, hn1, hst⟩ := h
   have hE := hD.hE; have hB := hD.hB; have hBE := hD.hBE; have hEle := hD.E_le
   have he : eNs E = E := eNs_D hD
@@ -165,7 +166,7 @@ theorem decision_D {E B : Int} {r : Req} {tv : Option Int} (h : ReqD E B r tv)
       simp only [Outcome.isOk, Outcome.allowed, Outcome.limit, Outcome.remaining, Outcome.resetNs,
         Outcome.retryNs, if_true, Bool.true_and]
       refine ⟨trivial, ⟨fun _ => by omega, fun _ => trivial⟩, fun _ => trivial, fun _ => by bnd, trivial, trivial,
-        trivial, hb, trivial, by bnd, fun _ => trivial, fun h => by simp at h⟩
+        trivial, hb, trivial, by bnd, fun _ => trivial, fun h => by simp at h, fun h => by simp at h⟩
     · have h3 : satSub (r.now + τ) tat = r.now + τ - tat := by
         unfold satSub; apply clamp_id <;> bnd
       have h4 : satSub tat r.now = tat - r.now := by
@@ -179,7 +180,7 @@ theorem decision_D {E B : Int} {r : Req} {tv : Option Int} (h : ReqD E B r tv)
       simp only [Outcome.isOk, Outcome.allowed, Outcome.limit, Outcome.remaining, Outcome.resetNs,
         Outcome.retryNs, Bool.false_eq_true, if_false, Bool.false_and]
       refine ⟨trivial, ⟨fun h => by simp at h, fun h => by omega⟩, fun _ => trivial, fun _ => by bnd, trivial, trivial,
-        trivial, hb, trivial, trivial, fun h => by simp at h, fun _ _ => by bnd⟩
+        trivial, hb, trivial, trivial, fun h => by simp at h, fun _ _ => by bnd, fun _ => by bnd⟩
   · -- huge quantity: the (possibly saturated) increment is far beyond any budget
     have hincge : satMul E r.qty > TWO61 := by
       rcases satMul_cases E r.qty (by omega) hq with ⟨hinc, _⟩ | ⟨hinc, _⟩
@@ -201,11 +202,15 @@ theorem decision_D {E B : Int} {r : Req} {tv : Option Int} (h : ReqD E B r tv)
       unfold satSub; apply clamp_id <;> bnd
     have h5 : satAdd (tat - r.now) (max τ E) = tat - r.now + max τ E := by
       unfold satAdd; apply clamp_id <;> bnd
+    have hretry : satSub (satSub (satAdd tat (satMul E r.qty)) τ) r.now ≥ 1 := by
+      have hr := (clamp_range (satAdd tat (satMul E r.qty) - τ)).2
+      unfold satSub at hallow hr ⊢
+      apply clamp_ge_of_ge <;> bnd
     simp only [ha, decide_false, if_false, h3, h4, h5, Bool.false_and, Bool.false_eq_true] at hd
     subst hd
     simp only [Outcome.isOk, Outcome.allowed, Outcome.limit, Outcome.remaining, Outcome.resetNs,
       Outcome.retryNs, Bool.false_eq_true, if_false, Bool.false_and]
     refine ⟨trivial, ⟨fun h => by simp at h, fun h => by bnd⟩, fun h => by omega, fun h => by omega, trivial, trivial,
-      trivial, hb, trivial, trivial, fun h => by simp at h, fun _ h => by omega⟩
+      trivial, hb, trivial, trivial, fun h => by simp at h, fun _ h => by omega, fun _ => by omega⟩
 
 end TcVerif
